@@ -63,8 +63,8 @@ Print Assumptions C45_bech32_detects_up_to_4_substitutions.
 (* ... but only symbols: changing the case of the only letter of a string is a 1-character substitution that still
    decodes ("219460f373" / "219460F373", replayed on the real bech32::Decode) *)
 Theorem C45_bech32_case_only_substitution_refuted :
-  exists s s' e hrp data, length s = length s' /\
-    (length (filter (fun p => negb (fst p =? snd p)) (combine s s')) = 1)%nat /\
+  exists (s s' : list N) e hrp data, length s = length s' /\
+    length (filter (fun p => negb (N.eqb (fst p) (snd p))) (combine s s')) = 1%nat /\
     decode 90 s = DecOk e hrp data /\ decode 90 s' = DecOk e hrp data.
 Proof. exact bech32_case_substitution_refuted. Qed.
 Print Assumptions C45_bech32_case_only_substitution_refuted.
@@ -130,6 +130,16 @@ Theorem C45_address_roundtrip_every_chain : forall (hash256 : list N -> list N),
   encode_destination hash256 kp d = AddrStr s -> decode_destination hash256 bech32_limit kp s = (d, E_ok).
 Proof. exact address_roundtrip_all_chains. Qed.
 Print Assumptions C45_address_roundtrip_every_chain.
+
+(* never decoded for another network (witness addresses): on a chain whose HRP differs, the string of a witness
+   destination is never decoded as a witness destination (it is rejected with the HRP error, or taken for base58) *)
+Theorem C45_segwit_address_not_decoded_under_another_hrp : forall (hash256 : list N -> list N) limit kpA kpB enc ver prog s,
+  hrp_ok (kp_hrp kpA) -> Bech32Convert.bytes_ok prog -> ver < 32 ->
+  (length (kp_hrp kpA) + 1 + (1 + (8 * length prog + 4) / 5) + 6 <= limit)%nat ->
+  segwit_encode kpA enc ver prog = AddrStr s -> kp_hrp kpB <> kp_hrp kpA ->
+  is_witness_dest (fst (decode_destination hash256 limit kpB s)) = false.
+Proof. exact segwit_foreign_hrp_rejected. Qed.
+Print Assumptions C45_segwit_address_not_decoded_under_another_hrp.
 
 (* the letter of "addresses round-trip" is false for destinations only direct construction can produce:
    WitnessUnknown(1, 4e73) decodes as PayToAnchor (and WitnessUnknown(1, 32 bytes) as WitnessV1Taproot) *)
